@@ -175,6 +175,18 @@ mut("int_list_elements_32bit", ["C01"], "parser.parseList.$1/inv/loop2[elements-
       "\t\t\t\tv, err := strconv.ParseInt(s, 10, 32)\n\t\t\t\tif err != nil {\n\t\t\t\t\treturn nil, err\n\t\t\t\t}\n\t\t\t\tints = append(ints, v)")], "list elements beyond int32 are rejected")
 mut("lexer_accepts_hex_integers", ["C01"], "parser.lex.isValidInt/",
     [("parser.go", "\t\t\t_, err := strconv.ParseInt(s, 10, 64)\n\t\t\treturn err == nil", "\t\t\t_, err := strconv.ParseInt(s, 0, 64)\n\t\t\treturn err == nil")], "0x10 becomes an integer token that parseInt then rejects")
+# ---- round-3 seeds turned into corpus entries
+mut("infix_nullary_call_rejected", ["C15"], "bnd/c15/infix=prefix",
+    [("parser.go", "\t\t\tif cnt < 0 || cnt > len(outputStack) {", "\t\t\tif cnt <= 0 || cnt > len(outputStack) {")], "f() is rejected in infix while (f) compiles")
+mut("fast_operand_read_without_cached", ["C05", "C04"], "getNodeValueProxy/post/unavailable-variable-is-DNE",
+    [("engine.go", "\t} else {\n\t\tres, err = fetchVariableValueProxy(ctx, n)\n\t}\n\treturn", "\t} else if n.varKey > 0 {\n\t\tres, err = ctx.Get(n.varKey, n.value.(string))\n\t} else {\n\t\tres, err = fetchVariableValueProxy(ctx, n)\n\t}\n\treturn")], "operands of a fast operator with a registered key skip the Cached test")
+mut("check_before_optimize", ["C02", "C06", "C09"], "sweep/callorder:compile",
+    [("compiler.go", "\toptimize(conf, ast)\n\n\tres := check(ast)\n\tif res.err != nil {\n\t\treturn nil, res.err\n\t}\n", "\tres := check(ast)\n\tif res.err != nil {\n\t\treturn nil, res.err\n\t}\n\n\toptimize(conf, ast)\n")], "limits are checked on the tree before nesting reduction grows it")
+mut("stack_else_branch_base_only_for_leaves", ["C01"], "calAndSetStackSize/",
+    [("compiler.go", "\t\tif isEndIfNode(e, prev) {\n\t\t\t_, prev = parentNode(e, prev)\n\t\t}\n\n\t\tn := e.nodes[i]\n\t\tswitch n.getNodeType() {\n\t\tcase constant, variable, fastOperator:\n\t\t\tf[i] = f[prev] + 1",
+      "\t\tn := e.nodes[i]\n\t\tswitch n.getNodeType() {\n\t\tcase constant, variable, fastOperator:\n\t\t\tif isEndIfNode(e, prev) {\n\t\t\t\t_, prev = parentNode(e, prev)\n\t\t\t}\n\t\t\tf[i] = f[prev] + 1")], "an else branch that starts with a zero-operand operator is laid out one slot too high")
+mut("stack_operator_keeps_one_operand", ["C01"], "calAndSetStackSize/",
+    [("compiler.go", "\t\t\tf[i] = f[prev] - int16(n.childCnt) + 1\n", "\t\t\tf[i] = f[prev] - int16(n.childCnt) + 1\n\t\t\tif n.childCnt > 8 {\n\t\t\t\tf[i]++\n\t\t\t}\n")], "operators with more than eight operands leave one extra slot")
 # ---- probes of mechanisms that only the bounded tier covers
 mut("reduce_nesting_merges_any_bool_operator", ["C02"], "bnd/",
     [("compiler.go", "\t\tif isAndOpNode(cn) == rootOpType {\n\t\t\tchildren = append(children, child.children...)", "\t\tif isAndOpNode(cn) == rootOpType || len(child.children) == 2 {\n\t\t\tchildren = append(children, child.children...)")], "a two-operand or inside an and (or vice versa) is flattened into its parent")
